@@ -84,6 +84,7 @@ struct Inner {
     consumer_stalled: bool,
     free_run: HashMap<Role, bool>,
     gone: HashMap<Role, bool>,
+    park_senders: bool,
 }
 
 pub struct Controller {
@@ -121,7 +122,7 @@ impl Controller {
                 roles: HashMap::new(), permits: HashMap::new(), done: HashMap::new(),
                 clients: HashMap::new(), client_release: HashMap::new(),
                 stepping: HashMap::new(), point_state: HashMap::new(), point_release: HashMap::new(),
-                oracle: Vec::new(), lock_edges: Vec::new(), consumer_stalled: false, free_run: HashMap::new(), gone: HashMap::new(),
+                oracle: Vec::new(), lock_edges: Vec::new(), consumer_stalled: false, free_run: HashMap::new(), gone: HashMap::new(), park_senders: true,
             }),
             cv: Condvar::new(),
             tick_tx: Mutex::new(None),
@@ -195,6 +196,11 @@ impl Controller {
         }
         self.cv.notify_all();
         self.wait_at_gate(role, timeout)
+    }
+
+    /// Whether registered clients park in front of a blocking send on a full queue (default) or simply block in it.
+    pub fn set_park_senders(&self, on: bool) {
+        self.lock().park_senders = on;
     }
 
     /// Lets `role` run freely from now on (its gate no longer stops it).
@@ -403,6 +409,7 @@ pub(crate) fn before_send(which: u8, is_full: bool) {
     let found = with_ctx(|ctx| (ctx.ctl.clone(), ctx.role));
     if let Some((ctl, Role::Client(tid))) = found {
         let mut g = ctl.lock();
+        if !g.park_senders { return; }
         let target = g.client_release.get(&tid).copied().unwrap_or(0) + 1;
         g.clients.insert(tid, ClientState::BlockedAtSend(which));
         ctl.cv.notify_all();
